@@ -20,9 +20,9 @@ import (
 	"github.com/yorkie-team/yorkie/client"
 	"github.com/yorkie-team/yorkie/pkg/document"
 	"github.com/yorkie-team/yorkie/pkg/document/crdt"
-	"github.com/yorkie-team/yorkie/pkg/document/time"
 	"github.com/yorkie-team/yorkie/pkg/document/json"
 	"github.com/yorkie-team/yorkie/pkg/document/presence"
+	"github.com/yorkie-team/yorkie/pkg/document/time"
 	"github.com/yorkie-team/yorkie/pkg/key"
 	"github.com/yorkie-team/yorkie/server/backend/database"
 	"github.com/yorkie-team/yorkie/server/documents"
@@ -300,10 +300,10 @@ type RPC struct {
 	Proc     string // AttachDocument, PushPullChanges, DetachDocument, ...
 	ClientID string
 	Status   int
-	Req    *api.ChangePack // request change pack (nil if none)
-	Resp   *api.ChangePack // response change pack (nil on error)
-	ReqRaw []byte
-	ResRaw []byte
+	Req      *api.ChangePack // request change pack (nil if none)
+	Resp     *api.ChangePack // response change pack (nil on error)
+	ReqRaw   []byte
+	ResRaw   []byte
 }
 
 func (r *Runner) installObserver() {
